@@ -1470,10 +1470,8 @@ class Builder:
             self.mutate_some(self.rng.randrange(self.nh))
 
     def next(self, o, n):
-        # DISABLED demand (defect found by this pass, see notes/C10.md): an empty request to a generator with an
-        # IIR lfilter state stores SciPy's uninitialised final state; not asked for until that is repaired.
-        if n == 0 and has_filter(self.case['specs'][self.ospec[o]]):
-            n = 1
+        # (an empty request to a generator with an IIR lfilter state used to store SciPy's uninitialised final state:
+        # repaired by fix 434292a and asked for since)
         self.op('next', o, n, *(['np'] if self.rng.random() < 0.15 else []))
 
     def pop(self, q, n):
